@@ -142,46 +142,5 @@ Definition is_normal_form (s : list Z) : bool :=
   (* no separator after a trailing '..' *)
   && no_dotdot_sep_end es.
 
-(* ---- the four input classes on which the current zix code is known to be wrong -------- *)
-
-Fixpoint all_dots (e : elem) : bool :=
-  match e with [] => true | c :: e' => Z.eqb c DOT && all_dots e' end.
-
-Fixpoint ends_dotdot (e : elem) : bool :=
-  match e with
-  | [a; b] => Z.eqb a DOT && Z.eqb b DOT
-  | _ :: e' => ends_dotdot e'
-  | [] => false
-  end.
-
-Fixpoint ends_sep_dot (s : list Z) : bool :=
-  match s with
-  | [a; b] => Z.eqb a SEP && Z.eqb b DOT
-  | _ :: s' => ends_sep_dot s'
-  | [] => false
-  end.
-
-(* A: starts with two or more separators *)
-Definition class_A (s : list Z) : bool :=
-  match s with a :: b :: _ => Z.eqb a SEP && Z.eqb b SEP | _ => false end.
-(* B: some element consists only of three or more dots *)
-Definition class_B (s : list Z) : bool :=
-  existsb (fun e => all_dots e && (3 <=? length e)%nat) (elems s).
-(* C: some element of length >= 3 containing a non-dot byte ends in ".." *)
-Definition class_C (s : list Z) : bool :=
-  existsb (fun e => negb (all_dots e) && (3 <=? length e)%nat && ends_dotdot e) (elems s).
-(* D: there is a ".." element and the string ends in "/." *)
-Definition class_D (s : list Z) : bool :=
-  existsb is_dotdot (elems s) && ends_sep_dot s.
-
-Definition plain (s : list Z) : bool :=
-  negb (class_A s) && negb (class_B s) && negb (class_C s) && negb (class_D s).
-
-(* the sub-class of `plain` for which the refinement proof is carried out: at most one
-   leading separator and no field (text between separators) ending in ".." -- so no "..",
-   no "...", no "a.." anywhere; classes B, C, D are then empty as well *)
-Definition no_dotdot_tail (s : list Z) : bool :=
-  negb (class_A s) && forallb (fun e => negb (ends_dotdot e)) (fields s).
-
 (* a C string has no NUL byte *)
 Definition c_string (s : list Z) : Prop := Forall (fun c => c <> 0) s.
